@@ -106,9 +106,10 @@ def run_corpus(ck, exe, work):
 def main():
     ck = Check("C01")
     quick = ck.tier == "quick"
-    gate_ok = ck.proof_gate(["MirVerif.Props.C01", "MirVerif.Props.C01Exprs"],
+    gate_ok = ck.proof_gate(["MirVerif.Props.C01", "MirVerif.Props.C01Exprs", "MirVerif.Props.C01PhiElim"],
                   support_modules=["MirVerif.Model.GenTable", "MirVerif.Model.GenCanon", "MirVerif.Lemmas.GenTable",
-                                   "MirVerif.Lemmas.GenPow2", "MirVerif.Lemmas.GenExt"],
+                                   "MirVerif.Lemmas.GenPow2", "MirVerif.Lemmas.GenExt",
+                                   "MirVerif.Model.PhiElim", "MirVerif.Lemmas.PhiElim"],
                   bridge_modules=["MirVerif.Lemmas.BridgeC01", "MirVerif.Lemmas.BridgeC02"],
                   translators=["c01_tables.py", "c02_tables.py", "c01_exprs.py"])
     if not quick:
